@@ -74,4 +74,64 @@ theorem skel_ticket_saveSession_ok : skel_ticket_saveSession = ([
   "return fmt.Errorf(\"failed to encode the session state with the tick",
   "return saver(t.id, ciphertext, t.options.Expire)"] : List String) := rfl
 
+theorem providerValidate_ok : providerValidate = ([
+  "## providers/azure.go AzureProvider.ValidateSession",
+  "return validateToken(ctx, p, s.AccessToken, makeAzureHeader(s.Acces",
+  "validateToken",
+  "## providers/digitalocean.go DigitalOceanProvider.ValidateSession",
+  "return validateToken(ctx, p, s.AccessToken, makeOIDCHeader(s.Access",
+  "validateToken",
+  "makeOIDCHeader",
+  "## providers/facebook.go FacebookProvider.ValidateSession",
+  "return validateToken(ctx, p, s.AccessToken, makeOIDCHeader(s.Access",
+  "validateToken",
+  "makeOIDCHeader",
+  "## providers/github.go GitHubProvider.ValidateSession",
+  "return validateToken(ctx, p, s.AccessToken, makeGitHubHeader(s.Acce",
+  "validateToken",
+  "## providers/keycloak.go KeycloakProvider.ValidateSession",
+  "return validateToken(ctx, p, s.AccessToken, makeOIDCHeader(s.Access",
+  "validateToken",
+  "makeOIDCHeader",
+  "## providers/linkedin.go LinkedInProvider.ValidateSession",
+  "return validateToken(ctx, p, s.AccessToken, makeLinkedInHeader(s.Ac",
+  "validateToken",
+  "## providers/logingov.go LoginGovProvider.ValidateSession",
+  "return validateToken(ctx, p, s.AccessToken, makeOIDCHeader(s.Access",
+  "validateToken",
+  "makeOIDCHeader",
+  "## providers/ms_entra_id.go MicrosoftEntraIDProvider.ValidateSession",
+  "p.getTenantFromToken",
+  "if err != nil",
+  "logger.Errorf",
+  "return false",
+  "if len(p.multiTenantAllowedTenants) > 0",
+  "p.checkTenantMatchesTenantList",
+  "if !tenantAllowed",
+  "return false",
+  "return p.OIDCProvider.ValidateSession(ctx, session)",
+  "p.OIDCProvider.ValidateSession",
+  "## providers/nextcloud.go NextcloudProvider.ValidateSession",
+  "return validateToken(ctx, p, s.AccessToken, makeOIDCHeader(s.Access",
+  "validateToken",
+  "makeOIDCHeader",
+  "## providers/oidc.go OIDCProvider.ValidateSession",
+  "p.Verifier.Verify",
+  "if err != nil",
+  "logger.Errorf",
+  "return false",
+  "if p.SkipNonce",
+  "return true",
+  "p.checkNonce",
+  "if err != nil",
+  "logger.Errorf",
+  "return false",
+  "return true",
+  "## providers/provider_default.go ProviderData.ValidateSession",
+  "return validateToken(ctx, p, s.AccessToken, nil)",
+  "validateToken"] : List String) := rfl
+
+theorem skel_ProviderVerifierOptions_toOIDCConfig_ok : skel_ProviderVerifierOptions_toOIDCConfig = ([
+  "return &oidc.Config{ ClientID: p.ClientID, SkipIssuerCheck: p.SkipI"] : List String) := rfl
+
 end O2P.Expect.C09
